@@ -57,6 +57,14 @@ class P:
         corp = G.heredoc_corpus() + G.arith_corpus()
         corp += ["cat <<E\n%s\nE\n" % w for w in ("$((\n))", "$((\\\n))", "$(( \n ))", "$(\n)", "`\n`", "${x:-\n}", "$((\n1\n))", "$(($((\n))))", "\"$((\n))\"")]
         corp += ["cat <<-E\n\tx $((  \n\t ))\n\tE\n", "cat <<$((\n))\n", "echo $(cat <<E\n$((\n))\nE\n)", "cat <<\"$((\n))\"\nx\n"]
+        # commands of every shape inside substitutions in here-document bodies and delimiter words (printed by the lexer goroutine)
+        inner = ["! a", "! a | b", "(! a)", "( ! a; b )", "! (a)", "! ! a", "!", "! { a; }", "(a)", "((1))", "{ a; }", "a &", "a; b", "if a; then b; fi", "! a && ! b",
+                 "for i in 1; do ! a; done", "case x in a) ! b;; esac", "f() { ! a; }", "! a <<F\nF\n", "a | ! b", "while ! a; do b; done"]
+        inner += [q.rstrip("\n") for q in progs[:700] if q.count("\n") == 1 and "<<" not in q]
+        for q in inner:
+            corp += ["cat <<E\n$(%s)\nE\n" % q, "cat <<E\nx $(%s) y `z`\nE\n" % q, "cat <<$(%s)\n$(%s)\n" % (q, q), "cat <<-E\n\t$( (%s))\n\tE\n" % q]
+            if "`" not in q and "\\" not in q and "$" not in q:
+                corp += ["cat <<E\n`%s`\nE\n" % q, "echo $(cat <<E\n$(%s)\nE\n)" % q]
         gen = [G.pcase(p) for p in progs + muts + cut + corp]
         # other configurations on a sample
         sample = [unhx(c.split("\t")[0]).decode() for c in rnd.sample(ex, len(ex) // 8)] + progs[:800] + muts[:800]
